@@ -26,6 +26,7 @@ CONSTANTS
   DEV_CreateThroughLink, \* os.Create follows a link already at the entry's path (candidate 2, write half)
   DEV_AbsInside,         \* an absolute link target inside dst is accepted (candidate 3)
   DEV_DirThroughLink,    \* a directory entry is applied through a link already at its path
+  DEV_WalkRawName,       \* the symlink walk runs over the raw entry name (a missing component before ".." ends it too early)
   DEV_LinkRawName        \* link targets validated from the raw entry name ("/a" taken as absolute)
 
 \* entry: [name : raw tokens, k : "f"|"d"|"l"|"g"|"p"|"h", m, t, c, tgt : raw tokens]
@@ -71,7 +72,7 @@ Proc(fs, dirs, e) ==
   ELSE
   LET path == EntryPath(e.name) IN
   IF ~Contains(path, Dst) THEN R(fs, dirs, "illegal", "traversal")
-  ELSE LET tl == ThroughLink(fs, Dst, e.name, 1) IN
+  ELSE LET tl == ThroughLink(fs, Dst, IF DEV_WalkRawName THEN e.name ELSE SubSeq(path, Len(Dst) + 1, Len(path)), 1) IN
   IF tl # "clear" THEN R(fs, dirs, "illegal", "through-" \o tl)
   ELSE IF e.k \notin Representable \cup Harmless THEN R(fs, dirs, "illegal", "type")
   ELSE
